@@ -107,6 +107,10 @@ def optimizeWidths(widths):
         for w in widths:
             d[w] += 1
         widths = d
+    elif not isinstance(widths, defaultdict):
+        d = defaultdict(int)
+        d.update(widths)
+        widths = d
 
     keys = sorted(widths.keys())
     minw, maxw = keys[0], keys[-1]
